@@ -4,7 +4,7 @@ CONSTANTS
   Srcs = {"ready_val", "ready_err", "ready_exc", "before_val", "after_val", "after_err", "after_exc", "on_after_val", "run_val", "run_throw", "acontract_val", "task_val", "task_err", "task_exc", "sched_val", "sched_throw", "lcontract_val"}
   Atts = {"inline", "e1", "inh"}
   Args = {"V", "R", "X", "E"}
-  Behs = {"val", "throw", "res_err", "fut_ready", "fut_pending", "shared_ready", "shared_pending", "task_make", "task_sched_stopped", "task_sched_then", "shared_cached_exc"}
+  Behs = {"val", "void_hop", "void_throw", "throw", "res_err", "fut_ready", "fut_pending", "shared_ready", "shared_pending", "task_make", "task_sched_stopped", "task_sched_then", "shared_cached_exc"}
   Rejects = {9}
   Starts = {"to_future", "detach"}
 INVARIANTS CalledXorDropped DropOnlyWhenStopped RanWhereTold InvokedInOrder LazyEqualsEager CancelRunsNoValueCallback AllocBound Emit
